@@ -13,6 +13,7 @@ from .. import common as C
 from .. import fakekernel as FK
 from .. import runcheck as RC
 from .. import runobs as R
+from .. import realproc as RP
 
 EXEC_INVS = ["C01", "C02", "C03", "C04", "C09", "PipeMatchesList", "SlotStack", "WaitingCounts"]
 MODEL_SECOND_REAPER = False  # the Popen object is kept alive in the handle (D7 repaired)
@@ -214,6 +215,12 @@ def run_family(prop, clauses, tier, focus, count_quick, count_thorough, sig_fn=N
                                  "next event %s" % (t_["id"], t_["g"]["deps"], t_["g"]["kind"], t_["jobs"], reached, n_, nxt))
     rep.cov["traces_accepted_by_Executor_tla"] = consumed
     rep.cov["traces_offered_to_Executor_tla"] = len(xt)
+    # B2: the same contract on REAL processes (real kernel, real SIGCHLD, gated completion orders / immediate exits)
+    nreal = (24 if tier == "quick" else 600)
+    rscns = RP.make_real_scenarios(rng, nreal, "soak" if focus == "reap" else "gated")
+    if focus == "reap":
+        rscns += RP.make_real_scenarios(rng, nreal // 2, "gated")
+    rep.cov["real_process_runs"] = RP.run_and_judge(rep, rscns, clauses)
     model_bad = sorted(set(mc.violated) | ({"<deadlock>"} if mc.deadlock else set()))
     relevant_model = [x for x in model_bad if x in (prop, "<deadlock>", "<temporal>")]
     if relevant_model and not real_hit:
@@ -236,6 +243,7 @@ def run_family(prop, clauses, tier, focus, count_quick, count_thorough, sig_fn=N
     for t in traces[:2]:
         rep.add_sample({"cfg": {k: t["cfg"][k] for k in ("deps", "kind", "par", "jobs", "stop")},
                         "events": [[e["e"], e.get("t"), e.get("st", e.get("slot"))] for e in t["events"]]})
-    rep.assumptions += ["FakeKernel (harness/fakekernel.py) is a faithful model of fork/waitpid/SIGCHLD/killpg",
+    rep.assumptions += ["FakeKernel (harness/fakekernel.py) is a faithful model of fork/waitpid/SIGCHLD/killpg (cross-checked by "
+                        "%d real-process executions judged on the skew-robust clauses)" % rep.cov.get("real_process_runs", 0),
                         "signal handlers are delivered at interposed calls (the handler state is only read there)"]
     return rep.finish()
